@@ -17,16 +17,17 @@ CONSTANTS MaxN
 TKinds == {"t1", "t2", "g", "rA", "rB"}
 AKinds == {"cat", "val", "hed"}
 HostKinds == {"cat", "val"}
-VARIABLES n, par, kind, akind, hkind
-vars == <<n, par, kind, akind, hkind>>
+VARIABLES n, par, kind, akind, hkind,
+          h2      \* a second host column (categorical) whose entry is "(<ref>, t3)": "none" (no such column), "A", "B" or "plain" (no reference)
+vars == <<n, par, kind, akind, hkind, h2>>
 IsG(k) == kind[k] = "g"
-Init == n = 0 /\ par = <<>> /\ kind = <<>> /\ akind \in AKinds /\ hkind \in HostKinds
+Init == n = 0 /\ par = <<>> /\ kind = <<>> /\ akind \in AKinds /\ hkind \in HostKinds /\ h2 \in {"none", "A", "B", "plain"}
 Count(kd) == Cardinality({k \in 1..n : kind[k] = kd})
 Add(p, kd) == /\ n < MaxN
               /\ (IF p = 0 THEN TRUE ELSE kind[p] = "g")
               /\ (kd \in {"rA", "rB"} => Count(kd) = 0)            \* each column referenced at most once
               /\ n' = n + 1 /\ par' = Append(par, p) /\ kind' = Append(kind, kd)
-              /\ UNCHANGED <<akind, hkind>>
+              /\ UNCHANGED <<akind, hkind, h2>>
 Next == \E p \in 0..n, kd \in TKinds : Add(p, kd)
 Spec == Init /\ [][Next]_vars
 
@@ -35,7 +36,8 @@ ACells == IF akind = "cat" THEN {"ok", "na", "unk"} ELSE IF akind = "val" THEN {
 BCells == {"ok", "na"}
 CCells == {"ok", "na"}
 HCells == {"ok", "na"}
-Rows == [h : HCells, a : ACells, b : BCells, c : CCells]
+H2Cells == IF h2 = "none" THEN {"na"} ELSE {"ok", "na"}
+Rows == [h : HCells, a : ACells, b : BCells, c : CCells, g : H2Cells]
 Gives(cell) == cell = "ok"
 RECURSIVE Alive(_, _)
 \* node k survives in row r
@@ -45,9 +47,16 @@ Alive(k, r) == IF kind[k] = "rA" THEN Gives(r.a)
                ELSE TRUE
 \* (an ancestor group survives whenever one of its descendants does)
 Survivors(r) == IF Gives(r.h) THEN {k \in 1..n : Alive(k, r)} ELSE {}
-Extras(r) == (IF Count("rB") = 0 /\ Gives(r.b) THEN {"B"} ELSE {})
+\* a column is referenced when ANY template of the sidecar mentions it
+RefA == Count("rA") > 0 \/ h2 = "A"
+RefB == Count("rB") > 0 \/ h2 = "B"
+\* contribution of the second host: "(X, t3)" with X spliced, "(t3)" when X contributes nothing
+H2Part(r) == IF ~Gives(r.g) THEN "none"
+             ELSE IF h2 = "A" /\ Gives(r.a) THEN "withA"
+             ELSE IF h2 = "B" /\ Gives(r.b) THEN "withB" ELSE "bare"
+Extras(r) == (IF ~RefB /\ Gives(r.b) THEN {"B"} ELSE {})
              \cup (IF Gives(r.c) THEN {"C"} ELSE {})
-             \cup (IF Count("rA") = 0 /\ Gives(r.a) THEN {"A"} ELSE {})
+             \cup (IF ~RefA /\ Gives(r.a) THEN {"A"} ELSE {})
 Expected == [r \in Rows |-> [alive |-> Survivors(r), extras |-> Extras(r)]]
 
 \* ---------- model properties ----------
@@ -56,6 +65,6 @@ NoEmptyGroup == \A r \in Rows : \A g \in Survivors(r) : IsG(g) => \E j \in Survi
 \* a surviving node's parent survives (the printed result is a tree)
 ParentsSurvive == \A r \in Rows : \A k \in Survivors(r) : par[k] = 0 \/ par[k] \in Survivors(r)
 \* a referenced column is never listed separately
-NotListedTwice == \A r \in Rows : (Count("rA") > 0 => "A" \notin Extras(r)) /\ (Count("rB") > 0 => "B" \notin Extras(r))
+NotListedTwice == \A r \in Rows : (RefA => "A" \notin Extras(r)) /\ (RefB => "B" \notin Extras(r))
 \* rows differing only in a cell the template does not use assemble the same template part
 =============================================================================
